@@ -379,7 +379,46 @@ fn handle(sh: &Arc<Shared>, mut rq: Request, c: usize, m: usize) {
     if plan.hold_phase > 0 {
         world::wait_phase(plan.hold_phase);
     }
-    if !plan.read.is_empty() || plan.to_eof || plan.upto.map_or(false, |u| u > 0) {
+    if let Some(kind) = plan.read_std.as_deref() {
+        // the way applications usually read a body: the helpers of std (they retry on ErrorKind::Interrupted)
+        if plan.ask == 0 {
+            world::log(format!("\"ev\":\"Ask\",\"c\":{},\"m\":{}", c, m));
+        }
+        let want = 1usize << 30;
+        world::log(format!("\"ev\":\"ReadCall\",\"c\":{},\"m\":{},\"want\":{}", c, m, want));
+        let mut got: Vec<u8> = Vec::new();
+        let r: std::io::Result<()> = lib(|| {
+            if kind == "copy" {
+                std::io::copy(rq.as_reader(), &mut got).map(|_| ())
+            } else {
+                rq.as_reader().read_to_end(&mut got).map(|_| ())
+            }
+        });
+        let n = got.len();
+        let ok = n <= expect_body.len() && got[..] == expect_body[..n];
+        match r {
+            Ok(()) => {
+                world::log(format!(
+                    "\"ev\":\"ReadRet\",\"c\":{},\"m\":{},\"want\":{},\"got\":{},\"ok\":{},\"tot\":{},\"err\":\"\"",
+                    c, m, want, n, ok, n
+                ));
+                if n > 0 {
+                    // the helper returned because a read returned 0
+                    world::log(format!("\"ev\":\"ReadCall\",\"c\":{},\"m\":{},\"want\":1", c, m));
+                    world::log(format!(
+                        "\"ev\":\"ReadRet\",\"c\":{},\"m\":{},\"want\":1,\"got\":0,\"ok\":true,\"tot\":{},\"err\":\"\"",
+                        c, m, n
+                    ));
+                }
+            }
+            Err(e) => {
+                world::log(format!(
+                    "\"ev\":\"ReadRet\",\"c\":{},\"m\":{},\"want\":{},\"got\":0,\"ok\":{},\"tot\":{},\"err\":{}",
+                    c, m, want, ok, n, js(&ekind(&e))
+                ));
+            }
+        }
+    } else if !plan.read.is_empty() || plan.to_eof || plan.upto.map_or(false, |u| u > 0) {
         let mut off = 0usize;
         let mut sizes = plan.read.clone();
         if sizes.is_empty() {
